@@ -45,9 +45,13 @@ type point struct {
 // outputs of the language-level pipeline for one source text
 func langOutputs(src string) string {
 	var b strings.Builder
-	_, _, ast, err := syntax.ParseSourceBytes([]byte(src), "t.mro", nil, false)
+	expanded, _, ast, err := syntax.ParseSourceBytes([]byte(src), "t.mro", nil, false)
 	if err != nil {
 		b.WriteString("COMPILE-ERROR:\n" + err.Error() + "\n")
+	} else {
+		// the include-expanded rendering of the compiled program (what mrp
+		// records as _mrosource): it shows what compilation rewrote
+		b.WriteString("COMPILED-SOURCE:\n" + expanded + "\n")
 	}
 	// the same at the strictest enforcement level (mrp --strict=error),
 	// where more rules produce errors
@@ -303,6 +307,32 @@ call P(n = 2,)
     call S(` + good + `)
     return (r = S.o,)
     retain (S.o, S.p,)
+}
+call P(q = 1,)
+`,
+		// stage retain lists that repeat a name (the list is de-duplicated
+		// and sorted), and a pipeline retain list in unsorted order
+		"retain-repeats": `filetype txt;
+stage R(
+    in  int q,
+    out txt a,
+    out txt b,
+    out txt c,
+    out txt d,
+    src comp "r",
+) retain (
+    c,
+    a,
+    c,
+    d,
+    b,
+    a,
+)
+pipeline P(in int q, out txt r,)
+{
+    call R(q = self.q,)
+    return (r = R.a,)
+    retain (R.d, R.b, R.c, R.d,)
 }
 call P(q = 1,)
 `,
